@@ -6,7 +6,7 @@ Arguments upd : simpl never.
 
 (* ================================================================== witnesses *)
 Definition cfgW : config :=
-  Build_config SExact false [] 600000%Z 3600000%Z 86400000%Z false false true true 600000%Z 300000%Z false.
+  Build_config SExact false [] 600000%Z 3600000%Z 86400000%Z false false true true 600000%Z 300000%Z false false.
 Definition clsW : list client := [Build_client false ["authorization_code"; "refresh_token"; "urn:ietf:params:oauth:grant-type:device_code"] ["photos"] [] None].
 Definition authzW (challenge method : string) : op :=
   OAuthorize (Build_authz RCode 0 "" ["photos"] ["photos"] [] [] "peter" challenge method "").
